@@ -104,6 +104,7 @@ type c12Case struct {
 	Service   B          `json:"service"`
 	Env       B          `json:"env"`
 	Common    map[B]B    `json:"common,omitempty"`
+	InclHost  bool       `json:"include_host,omitempty"` // Options.IncludeHost: the host name is one more common tag
 	IDName    B          `json:"idname,omitempty"`
 	BName     B          `json:"bname,omitempty"`
 	Precision uint       `json:"precision,omitempty"`
@@ -237,6 +238,7 @@ func c12Open(c *c12Case, addr string, maxpkt int32) (rep *c12Rep, err error) {
 	}
 	r, err := m3.NewReporter(m3.Options{
 		HostPorts: []string{addr}, Service: string(c.Service), Env: string(c.Env), CommonTags: tagsOf(c.Common),
+		IncludeHost:        c.InclHost,
 		MaxPacketSizeBytes: maxpkt, Protocol: p, MaxQueueSize: 6*len(c.Ops) + 64,
 		HistogramBucketIDName: string(c.IDName), HistogramBucketName: string(c.BName),
 		HistogramBucketTagPrecision: c.Precision,
@@ -891,6 +893,9 @@ read:
 	if wantCommon["env"] == "" {
 		wantCommon["env"] = string(c.Env)
 	}
+	if c.InclHost && wantCommon["host"] == "" {
+		wantCommon["host"] = c13Hostname()
+	}
 	if res.Fault {
 		// what was received must be a subsequence of what was reported (every report of a fault
 		// case has a unique value; the reporter's own metrics are matched by name), and every
@@ -1121,6 +1126,9 @@ func c12Term(idx int, c *c12Case, res *c12Result, idname, bname string) string {
 	}
 	if common["env"] == "" {
 		common["env"] = string(c.Env)
+	}
+	if c.InclHost && common["host"] == "" {
+		common["host"] = c13Hostname()
 	}
 	in = append(in, Ev{K: 1, S: append([]string{idname, bname}, c12SortedPairs(common)...)})
 	obs = append(obs, Ev{K: 1, I: []int64{int64(res.Free), int64(res.Ovh)}})
@@ -1432,6 +1440,7 @@ func c12GenConc(r *Rng, i int, thorough bool) c12Case {
 		}
 	}
 	c.MaxPkt = []int32{1440, 1440, 2000, 4096}[r.Intn(4)]
+	c.InclHost = i%4 == 1 || i%4 == 2 // the host name as one more common tag, in both protocols
 	return c
 }
 
